@@ -115,6 +115,18 @@ class BetaProxy:
     def b_qcd(self, k, nf):
         return self.beta_qcd(k, nf) / self.beta_qcd((2, 0), nf)
 
+    def beta_qcd_as2(self, nf):
+        return self.beta_qcd((2, 0), nf)
+
+    def beta_qcd_as3(self, nf):
+        return self.beta_qcd((3, 0), nf)
+
+    def beta_qcd_as4(self, nf):
+        return self.beta_qcd((4, 0), nf)
+
+    def beta_qcd_as5(self, nf):
+        return self.beta_qcd((5, 0), nf)
+
 
 class As4Proxy:
     """as4_evolution_integrals with roots() replaced by given symbolic roots (argument-checked against the
